@@ -111,7 +111,10 @@ func rxEval(cs rxCase) []core.Finding {
 			add("pattern", fmt.Sprintf("Pattern() = %q,%v; want %q", p, err, pattern))
 		}
 		ex, err := rs.Example()
-		if err != nil {
+		if err != nil && strings.Contains(err.Error(), "invalid argument to Intn") {
+			// one class whatever the shape of the text: the example generator gives up on a character class
+			fs = append(fs, core.Finding{Class: "regex:example-error:generator-cannot-draw-from-class", What: fmt.Sprintf("regex %q: Example() error %v", cs.Text, firstLineOf(err))})
+		} else if err != nil {
 			add("example-error", fmt.Sprintf("Example() error %v", firstLineOf(err)))
 		} else if !compiled.Match(ex) {
 			add("example-no-match", fmt.Sprintf("Example() = %q does not match %q", ex, pattern))
@@ -273,7 +276,10 @@ func runC18(c *core.Ctx) error {
 	})
 	// generated well-formed patterns
 	rng := rand.New(rand.NewSource(c.Seed))
-	atoms := []string{"a", "b", "[a-c]", "[0-9]", ".", `\d`, `\w`, `\/`, `\\`, "(ab)", "(a|b)", "x", `\.`, "[/]", `[\]]`}
+	atoms := []string{"a", "b", "[a-c]", "[0-9]", ".", `\d`, `\w`, `\/`, `\\`, "(ab)", "(a|b)", "x", `\.`, "[/]", `[\]]`,
+		// negated and non-ASCII classes, Unicode classes, escapes by number, flags
+		`[^a]`, `[^\x00-\x7f]`, `\D`, `\W`, `\S`, `\s`, `[[:alpha:]]`, `[[:^ascii:]]`, `\p{Greek}`, `\P{L}`, `\x41`, `\x{10FFFF}`, `[^\n]`, `(?i)k`, `(?s).`, `\pN`, `[\x{80}-\x{10FFFF}]`, `(?:ab)`, `a*?`, `[^\x00-\x{10FFFE}]`}
+	// (word boundaries are left out: `a\bb` matches nothing, and whether a pattern is satisfiable is not decided here)
 	quants := []string{"", "", "*", "+", "?", "{2}", "{1,3}"}
 	for i := 0; i < c.Pick(2000, 30000); i++ {
 		var sb strings.Builder
